@@ -866,12 +866,14 @@ func runScripts(c *Ctx, cases []scriptCase) {
 	workers := 8
 	for w := 0; w < workers; w++ {
 		wg.Add(1)
-		go func() {
+		go func(slot int) {
 			defer wg.Done()
 			for i := range ch {
+				c.BeginSlot(slot, "run", J{"class": cases[i].class, "script": cases[i].script})
 				res[i] = runBounded(map[string]interface{}{"weight": int64(5), "annotations": map[string]interface{}{"a": "b"}}, cases[i].script)
+				c.Done(slot)
 			}
-		}()
+		}(w)
 	}
 	for i, sc := range cases {
 		if !sc.stdin && !skip[i] {
